@@ -1,9 +1,10 @@
-// C03: FdEvent on both back-ends (engine H, fork per evaluation, ASan).
+// C03: FdEvent on both back-ends (engine H; evaluations run in forked children under ASan, see the comment above g_shared).
 // usage: harness <config 0..6> <depth> <script_first> <script_last> [lane [part nparts]]
 //   lane 0 = base menu (enable/disable/feed/drain/pass)
 //   lane 1 = life-cycle menu (base + re-initialise to another descriptor / with another mask, destroy+re-create,
-//            close the peer of a pipe), explored for the scripts selected by ext_lane_script()
-// Every history is executed on FOUR loops in one forked child:
+//            close the peer of a pipe; at most VERIF_C03_EXT_MAX of them per history), explored for the scripts selected by ext_lane_script()
+//   part/nparts = split of the search by the first operation (one process per part)
+// Every history is executed on FOUR loops:
 //   epoll and select with the per-fd record pool de-pooled (ASan sees every use of a released record), and
 //   epoll and select with the pool as shipped (released records are recycled) and a 2-entry epoll_wait() array
 //   (two ready descriptors hit the "array was full -> grow" branch without truncating the pass).
@@ -279,7 +280,7 @@ int main(int argc, char **argv) {
       return false; };
     auto store = [&](const std::string &hk, const Res &r) {
       bool acted = sc.act != NONE && (r.called & (1u << sc.e));
-      if (share && r.viol.empty() && !acted && g_shared.size() < shared_cap) g_shared[hk] = r;
+      if (share && !acted && g_shared.size() < shared_cap) g_shared[hk] = r;      // (a violation that does not involve the script is shared as well)
       else if (share && g_own.size() < shared_cap) g_own[std::to_string(si) + ":" + hk] = r;
       else g_pending[hk] = r; };
     // runs `group` in one child; false if the child did not deliver one complete result per history
@@ -313,11 +314,11 @@ int main(int argc, char **argv) {
       else {      // somebody in the group kills the child: one child per history
         g_regroup++; std::vector<std::vector<Op>> all = group; std::vector<std::string> allk = keys;
         for (size_t i = 0; i < all.size(); i++) { group.assign(1, all[i]); g_evals++;
-          if (run_group(out, crash)) store(allk[i], out[0]); else store(allk[i], Res{"", crash.empty() ? std::string("crash:incomplete-result") : crash, ~0u}); } }
+          bool has_pass = false; for (auto &o : all[i]) if (o.k == PASS) has_pass = true;      // no pass, no callback: the crash cannot involve the script
+          if (run_group(out, crash)) store(allk[i], out[0]); else store(allk[i], Res{"", crash.empty() ? std::string("crash:incomplete-result") : crash, has_pass ? ~0u : 0u}); } }
       if (!lookup(hk, r)) { viol = "harness-error:group-did-not-contain-the-history"; return ""; }
       viol = r.viol; return r.canon; };
     g_pending.clear();
-    if (rdepth != depth) ex.max_viol_print = 0;      // a violation found by the first round is found (and printed) again by the second one
     ex.explore(rdepth); g_explores++;
     if (rdepth != depth) first_round[si] = std::make_pair(ex.states, ex.transitions);
     else if (!ex.capped && first_round.count(si)) {   // the first round of this script is contained in the completed second one: do not count it twice
